@@ -27,7 +27,7 @@ var vfC04Shape = vf.CallShape{
 	Names:   []string{"v1stake", "v1unstake", "v1voteBP"},
 	SymName: []int{2},
 	MaxArgs: 1,
-	SymStr:  []int{1},
+	Alts:    []vf.Alt{vf.ANull(), vf.ASym(1), vf.ABool(true), vf.AArr(), vf.AObj()},
 }
 
 func vfC04aCheck(body *TxBody) {
